@@ -12,6 +12,7 @@ import (
 	"crypto/sha512"
 	"encoding/asn1"
 	"fmt"
+	cose "github.com/veraison/go-cose"
 	"math/big"
 	"sort"
 	"testing"
@@ -341,7 +342,7 @@ func TestC02_Splices(t *testing.T) {
 			t.Fatalf("cannot sign: %v", err)
 		}
 		otherTrafficEvery(4)
-		kind := rapid.SampledFrom([]string{"splice-payload", "splice-protected", "splice-signature", "sig-zero", "sig-random", "sig-flip", "byte-edits", "alg-unprotected-only", "alg-nowhere", "nil-payload", "nil-payload-original-sig", "nil-payload-original-sig", "empty-signature", "wrong-key", "reencode", "equiv-protected", "equiv-protected", "equiv-payload", "extend-payload", "extend-payload", "extend-protected", "shrink-payload", "sig-reencode", "sig-reencode", "prefix-payload", "prefix-payload", "other-container", "other-container", "keyless-signature", "keyless-signature", "element-rewrap", "element-rewrap"}).Draw(t, "kind")
+		kind := rapid.SampledFrom([]string{"splice-payload", "splice-protected", "splice-signature", "sig-zero", "sig-random", "sig-flip", "byte-edits", "alg-unprotected-only", "alg-nowhere", "nil-payload", "nil-payload-original-sig", "nil-payload-original-sig", "empty-signature", "wrong-key", "reencode", "equiv-protected", "equiv-protected", "equiv-payload", "extend-payload", "extend-payload", "extend-protected", "shrink-payload", "sig-reencode", "sig-reencode", "prefix-payload", "prefix-payload", "other-container", "other-container", "keyless-signature", "keyless-signature", "element-rewrap", "element-rewrap", "signature-less-evidence"}).Draw(t, "kind")
 		var mut []byte
 		detail := ""
 		rebuild := func(prot, pay, sig []byte) []byte {
@@ -556,6 +557,51 @@ func TestC02_Splices(t *testing.T) {
 			}
 			mut = rebuild(a.Parts.Protected, a.Parts.Payload, alt)
 			detail = how
+		case "signature-less-evidence":
+			// the one way to hold a message WITHOUT a signature: an Evidence
+			// whose signing attempt failed in the signer (error, empty or nil
+			// signature) - fresh, or after it held and verified the genuine
+			// token. It carries an algorithm and a payload; it must not
+			// verify with any key.
+			lit, ok := mA.BuildLiteral()
+			if !ok {
+				return
+			}
+			ev := &psatoken.Evidence{}
+			prior := rapid.SampledFrom([]string{"fresh", "decoded-and-verified", "signed-and-verified"}).Draw(t, "prior")
+			switch prior {
+			case "decoded-and-verified":
+				if ev.UnmarshalCOSE(a.Tok) != nil || ev.Verify(kpA.Pub) != nil {
+					t.Fatalf("C02 positive control failed")
+				}
+				ev.Claims = lit
+			case "signed-and-verified":
+				_ = ev.SetClaims(lit)
+				if _, serr := ev.ValidateAndSign(kpA.Signer()); serr != nil || ev.Verify(kpA.Pub) != nil {
+					t.Fatalf("C02 positive control failed: %v", serr)
+				}
+			default:
+				_ = ev.SetClaims(lit)
+			}
+			mode := rapid.SampledFrom([]string{"error", "empty", "nil"}).Draw(t, "fault")
+			fs := &faultySigner{alg: cose.Algorithm(algA), mode: mode, n: len(a.Parts.Signature)}
+			var tk []byte
+			var serr error
+			if genBool.Draw(t, "validating") {
+				tk, serr = ev.ValidateAndSign(fs)
+			} else {
+				tk, serr = ev.Sign(fs)
+			}
+			if serr == nil || len(tk) != 0 {
+				t.Fatalf("C02 violated (%s): signing with a signer that fails (%s) returned err=%v and %d bytes", kpA.Name(), mode, serr, len(tk))
+			}
+			for i, k := range append([]crypto.PublicKey{kpA.Pub}, otherKeys(kpA)...) {
+				if ev.Verify(k) == nil {
+					t.Fatalf("C02 violated (%s): an Evidence (%s) whose signing attempt failed in the signer (%s) carries no signature, yet Verify succeeds with key #%d (%T; #0 = the signer's)", kpA.Name(), prior, mode, i, k)
+				}
+			}
+			st.Case(kpA.Name()+"|signature-less-evidence|"+prior+"|"+mode+"|"+mA.ClassVector(), "signature-less-evidence", icose.AlgName(algA))
+			return
 		case "element-rewrap":
 			// the genuine header, payload and signature, but one element of the
 			// array is no longer the byte string the structure requires: the
